@@ -117,6 +117,10 @@ type Alt struct {
 	// BoolStyle: how a boolean is spelled on the COMMAND LINE: "" (true / false) or one of the other spellings the
 	// plugin understands there: "1" (1 / 0), "t" (t / f), "T" (T / F), "TRUE" (TRUE / FALSE), "True" (True / False)
 	BoolStyle string `json:"boolstyle"`
+	// CfgFile: what the `config` parameter names in this rendering: "" (the YAML text of the rendering), "none" (no config
+	// parameter at all), "empty" (a zero-byte file), "comments" (a file whose entries are all commented out).  The last three
+	// need a configuration that is delivered on the command line entirely.
+	CfgFile string `json:"cfgfile"`
 }
 
 // Cfg is the abstract configuration.
@@ -126,6 +130,9 @@ type Cfg struct {
 	Separate       bool     `json:"separate"` // separate target package
 	ImportOverride bool     `json:"importoverride"`
 	DottedImport   bool     `json:"dottedimport"` // the struct package lives at an import path whose last element has a dot (types.v1)
+	// CapsImport: the import path of the struct package contains capital letters (github.com/Acme/...): its last element is
+	// spelled RootLeafMidOuterInnerTypes
+	CapsImport bool `json:"capsimport"`
 	// SameName: the separate target package is NAMED like the struct package (last element of its import path)
 	SameName bool `json:"samename"`
 	// ExtraOverride: import_path_overrides carries a second, unrelated entry whose key is a prefix of the struct package's path
